@@ -794,7 +794,7 @@ fn sc_many_farms_exact_thirds_long_farm(t: &mut Tracer) {
     w.expand_farm(&e, "m-long", &lp2, coin(6, "uusd"), &[coin(6, "uusd")]);
     // a farm whose last epoch is so far away that nobody can compute when it ends: it is not expired, and a stranger's next
     // creation on the same LP token neither closes nor refunds it
-    mk(&mut w, &e, "far", &lp2, 3, 1_000_000_000_000_000, coin(1_000_000_000_000_000_000, "uweth"));
+    mk(&mut w, &b, "far", &lp2, 3, 1_000_000_000_000_000, coin(1_000_000_000_000_000_000, "uweth")); // its owner has no other farm
     mk(&mut w, &d, "afterfar", &lp2, 3, 9, coin(6000, "uusdt"));
     // a farm emitting one unit per epoch, expanded by more epochs than a 64-bit counter holds: refused, not truncated
     mk(&mut w, &e, "one", &lp2, 3, 1003, coin(1000, "uusdt"));
@@ -807,8 +807,8 @@ fn sc_many_farms_exact_thirds_long_farm(t: &mut Tracer) {
     w.claim(&d, None, &[]);
     w.pos_withdraw(&d, "u-d1", Some(true), &[]); // penalty shared among the owners of 12 farms
     // on the other LP token a farm runs whose end nobody can compute: it is a live farm, its owner shares the penalty
-    w.pos_create(&d, Some("d2".into()), 30 * DAY, None, &[coin(1_000_000, lp2.clone())]);
-    w.pos_withdraw(&d, "u-d2", Some(true), &[]);
+    w.pos_create(&c, Some("c3".into()), 30 * DAY, None, &[coin(1_000_000, lp2.clone())]);
+    w.pos_withdraw(&c, "u-c3", Some(true), &[]);
     w.advance(DAY);
     w.advance(DAY);
     w.claim(&b, None, &[]);
